@@ -21,7 +21,7 @@ CHECKS = {
     "C13": ("exploration", "3.C13", "Two scripted targets and a scripted selector feed if_then_else over scalar, bundle, set and dictionary shapes; the result is read directly, below a nested pass-through, from an if_then_else inside a nested graph, and through the same selection made by switch_ (direct and reference-shaped branch terminals). A model of the sampled-rebind semantics decides for every cycle whether each consumer must (not) be evaluated and what value and delta it must read. Seeded sampling of relative timings."),
     "C14": ("fault_enumeration", "3.C14", "For each seeded program every single fault point (node x phase x occurrence<=3) is injected in its own run, plus seeded fault pairs, under cleanup_on_error on/off and request_stop; the complete lifecycle-observer history of each run is checked against start/stop pairing, order, exactly-once, no-evaluation-outside-lifetime, rollback and error-identity invariants. Exhaustive over single fault points per program; programs and pairs are sampled."),
     "C15": ("fault_enumeration", "3.C15", "For each seeded program with error capture (exception_time_series / try_except_) every subset of the capturing node's evaluation cycles (complete up to 5 evaluations) is made to throw; each run is compared with the fault-free run (independent streams unchanged), with the error-tick count/message rule and with the reference interpreter under the same fault plan; a quarter of the runs are keyed maps (exception_time_series over map_, per-key solo reference, error under the failing key only). Exhaustive over cycle subsets for small targets; programs are sampled."),
-    "C16": ("exploration", "3.C16", "The real push-source node, sender and real-time executor run on simulated threads: a seeded scheduler chooses the running thread at every intercepted pthread mutex/condition-variable call, advances a simulated clock and injects stalls, spurious and late wake-ups, starvation and stop races. The recorded invoke/return/deliver history is checked for FIFO linearizability, exactly-once, capacity, justified refusals, bounded liveness and lost wake-ups (a forced time-out of the engine's wait while work is pending). Seeded sampling of interleavings (distinct decision-list hashes are counted), not enumeration."),
+    "C16": ("exploration", "3.C16", "The real push-source node, sender and real-time executor run on simulated threads: a seeded scheduler chooses the running thread at every intercepted pthread mutex/condition-variable call, advances a simulated clock and injects stalls, spurious and late wake-ups, starvation and stop races. The recorded invoke/return/deliver history is checked for FIFO linearizability, exactly-once, capacity, justified refusals, bounded liveness and lost wake-ups (a forced time-out of the engine's wait while work is pending). Seeded sampling of interleavings (distinct decision-list hashes are counted), not enumeration. The thorough tier adds a pass on a build whose runtime translation units are compiled with -finstrument-functions, where the scheduler may also pre-empt at engine function entries; failing schedules are minimised as an explicit decision tape."),
     "C17": ("exploration", "3.C17", "The real real-time run loop on a simulated wall clock with scripted timers, wall-clock alarms, pushes, stop requests, slow evaluations and clock faults; time/ordering invariants over the recorded history (never early, every due wake-up delivered at its logical time, prompt stop, end-time termination, no lost wake-up, no deadlock). Seeded sampling of schedules and interleavings."),
     "C18": ("exploration", "3.C18", "Seeded operation sequences on the real NodeScheduler executed by scripted nodes inside running graphs; every query answer after every operation is compared with a pending-set reference model and every pending time must produce an evaluation at exactly that time. Sampling of operation sequences."),
     "C20": ("exploration", "3.C20", "For seeded tick histories over a 22-shape schema library the run records the stream, replays the recording in a second run and records again; buffers must be equal cycle for cycle, a capture/apply mirror must hold the writer's value at every tick. Seeded sampling of schemas and histories."),
